@@ -292,3 +292,25 @@ PROPS["C03"] = {
         "three known findings are excluded by construction while their witnesses still fail (arguments over the limit, colliding JSON keys, multipart without closing boundary)",
     ],
 }
+
+PROPS["C16"] = {
+    "level": "exploration",
+    "runs": [run("TestC16", (2500, 6), (100000, 16))],
+    "rule": "cases = 1..3 structured rule descriptions (1..3 targets over 15 variables with plain keys containing : , / = \" . and regex keys "
+            "containing | , : ' \\/, counts, exclusions; 7 operators with arguments containing quotes, backslashes, commas, colons, pipes, "
+            "non-UTF-8 bytes; up to 5 actions among msg / tag / logdata / setvar / t / severity / status / rev / ver / ctl / maturity / flags "
+            "with values containing commas, colons and escaped quotes, optional quoting; disruptive action; chains of 1..3) rendered "
+            "canonically and in 3..5 styles (letter case of directive and action names, indentation, comment and blank lines, backslash "
+            "continuation between any two tokens or actions, optional quoting of id, splitting into included files); oracle = (a) the "
+            "compiled rules read by reflection equal the description, (b) every style compiles to the same reflective dump as the canonical "
+            "text, (c) near-miss texts (one structural quote deleted / duplicated, '|' deleted or duplicated between plain variables, "
+            "duplicated or trailing comma, ':' of id deleted, blank before the operator deleted) are rejected; non-trivial = a delimiter of "
+            "the enclosing syntax occurs inside a key, operator argument or action value",
+    "essential": {"all": ["delimiter-in-key", "pipe-in-regex-key", "delimiter-in-operator-argument", "delimiter-in-action-value", "escaped-quote-in-action-value",
+                          "chain", "line-continuation", "split-across-included-files", "near-miss:del-quote", "near-miss:dup-open-quote", "near-miss:del-pipe",
+                          "near-miss:dup-pipe", "near-miss:dup-comma", "near-miss:trailing-comma", "near-miss:del-id-colon", "near-miss:del-blank"]},
+    "assumptions": COMMON_ASSUME + [
+        "the domain is what the grammar can carry: keys without blank, '|' and single quote; operator arguments without a backslash directly before a double quote or at the end, no leading/trailing blank, no line break; action values in which every single quote is escaped",
+        "chain links receive the built-in phase-2 default actions when they have an action string (TODO in rule_parser.go), which the expectation reproduces",
+    ],
+}
